@@ -10,7 +10,9 @@ import (
 	"strconv"
 	"strings"
 	"sync"
+	"sync/atomic"
 	"syscall"
+	"time"
 )
 
 // Shard is the worker side of a sharded run: a subprocess with an address-space limit whose death
@@ -18,6 +20,7 @@ import (
 type Shard struct {
 	Index, N int
 	Trace    bool
+	progress atomic.Int64 // bumped by Cur/Tick; the watchdog ends a worker that makes no progress at all
 	Tier     string
 	mu       sync.Mutex
 	w        *bufio.Writer
@@ -50,6 +53,7 @@ func ShardFromArgs() *Shard {
 	if s == nil {
 		return nil
 	}
+	go s.watchdog()
 	s.Tier = "quick"
 	for i, a := range os.Args {
 		if a == "--trace" {
@@ -128,8 +132,33 @@ func (s *Shard) Sample(x any) {
 
 // Cur announces, in trace mode only, the case about to be executed (flushed, so it survives a crash).
 func (s *Shard) Cur(sig, id string) {
+	s.progress.Add(1)
 	if s.Trace {
 		s.send(shardMsg{T: "cur", Sig: sig, ID: id}, true)
+	}
+}
+
+// Tick tells the watchdog that the worker is alive (for loops that do not call Cur).
+func (s *Shard) Tick() { s.progress.Add(1) }
+
+// watchdog: a worker that completes no case at all for stallLimit is stuck in the code under test (a loop that never
+// ends, a lock that is never released). It ends itself like a crashed worker; the parent then re-runs the shard in
+// trace mode, where every case is announced before it runs, and attributes the death to the case it stopped in
+// (worker-death/<sig>). Cases take micro- to milliseconds; the limit only has to exceed any scheduling hiccup.
+const stallLimit = 10 * time.Minute
+
+func (s *Shard) watchdog() {
+	last, since := s.progress.Load(), time.Now()
+	for {
+		time.Sleep(5 * time.Second)
+		if cur := s.progress.Load(); cur != last {
+			last, since = cur, time.Now()
+			continue
+		}
+		if time.Since(since) > stallLimit {
+			fmt.Fprintf(os.Stderr, "worker %d/%d: no case completed for %v: giving up (stuck in the code under test)\n", s.Index, s.N, stallLimit)
+			os.Exit(3)
+		}
 	}
 }
 
